@@ -15,16 +15,19 @@ func init() { register("C18", checkC18) }
 const (
 	rC18Lock   = "ORD.lock-discipline"
 	rC18Global = "EFFECT.global-write-inventory"
+	rC18UF     = "ORDABS.shared-substitution-not-written"
 	rC18Pool   = "ORD.pool-hygiene"
 )
 
 func checkC18(c *core.Ctx) {
 	c.Rule(rC18Lock, "every method of ConcurrentFactStore takes the mutex exactly once before it touches the base store (write lock for Add, Remove, Merge; read or write lock for the readers), releases it on every exit, makes exactly one call of the base method of the same name while holding it and returns that call's result: each operation is atomic with respect to the others, so any history is linearizable relative to a sequentially correct base", 8)
-	c.Rule(rC18Global, "no function other than init writes a package-level variable of the library, except under that package's mutex (writes through assignment, index/field stores, ++/--, delete, clear)", 1)
+	c.Rule(rC18Global, "no function other than init writes a package-level variable of the library, except under that package's mutex (writes through assignment, index/field stores, ++/--, delete, clear); and every read of a variable that is written after initialisation is dominated by Lock or RLock of a package mutex", 2)
 	c.Rule(rC18Pool, "a pooled lexer/parser is not used after it was put back into its pool, and each parse call takes its own pair and installs a per-call error listener", 2)
 	c18Locks(c)
 	c18Globals(c)
 	c18Pool(c)
+	c.Rule(rC18UF, "the union-find substitution, evaluated from source: extending a substitution (UnifyTermsExtend) leaves the base it was given untouched - no entry added, none rewritten by path compression - because sibling solutions (and goroutines evaluating in parallel from one base) read it at the same time; the remaining laws of the structure are evaluated along with it", 4)
+	unionFindLaws(c, rC18UF)
 }
 
 func c18Locks(c *core.Ctx) {
@@ -273,6 +276,85 @@ func c18Globals(c *core.Ctx) {
 			})
 		}
 	}
+	// reads: a variable that is written after initialisation (under the mutex) must be read under the mutex too
+	mutable := map[string]bool{}
+	for _, w := range writes {
+		mutable[w.v] = true
+	}
+	var unguardedReads []string
+	nreads := 0
+	for _, rel := range c.Prog.RelPkgs() {
+		if rel == "parse/gen" || strings.HasPrefix(rel, "cmd/") || rel == "examples" || len(mutable) == 0 {
+			continue
+		}
+		pkg := c.Prog.Pkg(rel)
+		info := pkg.TypesInfo
+		for _, f := range c.Prog.AllFuncs(rel) {
+			if f.Decl.Recv == nil && f.Decl.Name.Name == "init" {
+				continue
+			}
+			var g *core.Graph
+			lhs := map[*ast.Ident]bool{}
+			ast.Inspect(f.Decl.Body, func(n ast.Node) bool {
+				if as, ok := n.(*ast.AssignStmt); ok {
+					for _, l := range as.Lhs {
+						if id, ok := ast.Unparen(l).(*ast.Ident); ok {
+							lhs[id] = true
+						}
+					}
+				}
+				return true
+			})
+			ast.Inspect(f.Decl.Body, func(n ast.Node) bool {
+				id, ok := n.(*ast.Ident)
+				if !ok || lhs[id] {
+					return true
+				}
+				v, ok := info.Uses[id].(*types.Var)
+				if !ok || v.Pkg() == nil || v.Parent() != v.Pkg().Scope() || !mutable[core.ObjName(v)] {
+					return true
+				}
+				nreads++
+				if g == nil {
+					g = c.Prog.CFGOf(f)
+				}
+				ref, okr := g.RefAt(id.Pos())
+				held := false
+				if okr {
+					for _, l := range g.Find(func(m ast.Node) bool {
+						if _, d := m.(*ast.DeferStmt); d {
+							return false
+						}
+						found := false
+						core.Walk(m, false, func(x ast.Node) bool {
+							if call, ok := x.(*ast.CallExpr); ok {
+								if sel, ok := ast.Unparen(call.Fun).(*ast.SelectorExpr); ok && (sel.Sel.Name == "Lock" || sel.Sel.Name == "RLock") {
+									if r := rootIdent(sel.X); r != nil {
+										if gv, ok := info.Uses[r].(*types.Var); ok && gv.Pkg() != nil && gv.Parent() == gv.Pkg().Scope() {
+											found = true
+										}
+									}
+								}
+							}
+							return true
+						})
+						return found
+					}) {
+						if g.RefDominates(l, ref) {
+							held = true
+						}
+					}
+				}
+				if !held {
+					unguardedReads = append(unguardedReads, fmt.Sprintf("%s reads %s at %s without holding the package mutex", f.Name, core.ObjName(v), c.Prog.Pos(id.Pos())))
+				}
+				return true
+			})
+		}
+	}
+	sort.Strings(unguardedReads)
+	c.Cover("reads_of_mutable_globals", nreads)
+	c.Check(len(unguardedReads) == 0, rC18Global, "module:reads-of-mutable-package-variables", 0, fmt.Sprintf("%d reads of package-level variables that are written after initialisation, all under a package mutex", nreads), strings.Join(unguardedReads, "; ")+": the read races with the locked writer")
 	sort.Slice(writes, func(i, j int) bool { return writes[i].pos < writes[j].pos })
 	var bad []string
 	ng := 0
